@@ -26,6 +26,7 @@ PROPS['C04'] = {
         '(*tree.Tree).computeEdgeHashesRightRecur', '(*tree.Tree).computeEdgeHashesLeftRecur',
         ('(*tree.Tree).ReinitIndexes', {'match': [r'^callsite', r'^post']}), ('(*tree.Tree).ReinitInternalIndexes', {'match': [r'^callsite']}),
         ('(*tree.Tree).ComputeEdgeHashes', {'match': [r'^callsite']}),
+        ('(*tree.Tree).ShuffleTips', {'match': [r'^callsite', r'^post']}),
         ('(*tree.Tree).fillRightBitSet', {'match': [r'^callsite', r'^post', r'^inv']}), ('(*tree.Tree).UpdateBitSet', {'match': [r'^callsite']}),
         ('(*tree.Tree).tipEdgesRecur', {'match': [r'^post', r'^inv']}), ('(*tree.Tree).TipEdges', {'match': [r'^post', r'^inv']}),
         ('(*tree.Tree).edgesRecur', {'match': [r'^post', r'^inv']}), ('(*tree.Tree).internalEdgesRecur', {'match': [r'^post', r'^inv']}), ('(*tree.Tree).InternalEdges', {'match': [r'^post', r'^inv']}),
@@ -246,7 +247,7 @@ PROPS['C01'] = {
     'level_note': 'the composition parse o write over unbounded trees is a simultaneous induction over tree and token stream that no per-function contract expresses (DESIGN.md section 5); strconv round-trip exactness is trusted',
     'packages': ALLPK,
     'functions': [('(*io/newick.Parser).parseIter', {'match': [r'^step', r'^inv', r'^decreases']}),
-                  '(*io/newick.Scanner).Scan', '(*io/newick.Scanner).scanIdent', '(*tree.Node).Newick'],
+                  '(*io/newick.Scanner).Scan', '(*io/newick.Scanner).scanIdent', '(*tree.Node).Newick', ('(*tree.Tree).Newick', {'match': [r'^callsite', r'^step']})],
     'trusted_base': TB_COMMON,
     'assumptions': A_COMMON,
     'explanation': 'Deductive per-token contracts of the real parser; the round trip itself is a composition outside this technique.',
@@ -293,7 +294,8 @@ PROPS['C06'] = {
     'functions': [('(*tree.Tree).removeTip', {'match': [r'^return', r'^post', r'^inv', r'^nil', r'^bounds', r'^pre\.\(\*tree\.Tree\)', r'^pre\.\(\*tree\.Node\)\.delNeighbor\.0$', r'^pre\.\(\*tree\.Node\)\.delNeighbor\.0\[[2-9]\]']}),
                   ('(*tree.Tree).RemoveTips', {'match': [r'^callsite', r'^post', r'^inv', r'^nil', r'^bounds']}),
                   '(*tree.Tree).delNode', '(*tree.Node).delNeighbor', '(*tree.Node).NodeIndex',
-                  ('cmd.specificTips', {'match': [r'^inv', r'^step', r'^return']}), ('cmd.pruneCmd.RunE', {'match': [r'^callsite', r'^pre\.\(\*tree']})],
+                  ('cmd.specificTips', {'match': [r'^inv', r'^step', r'^return']}), ('cmd.pruneCmd.RunE', {'match': [r'^callsite', r'^step', r'^pre\.\(\*tree\.Tree\)\.RemoveTips']}),
+                  ('(*tree.Tree).clearBitSetsRecur', {'match': [r'^callsite']}), ('(*tree.Tree).ReinitInternalIndexes', {'match': [r'^callsite']})],
     'trusted_base': TB_COMMON,
     'assumptions': A_COMMON,
     'not_decided': ['induced-subtree theorem as a whole (A-GRAPH)', 'cmd/prune.go: that Nodes() lists every node (completeness of specificTips over the whole tree)'],
